@@ -59,7 +59,10 @@ RdModes(b, p, cnt, acc) ==
 RdEntry(b, p, n) ==
   LET g == LebGroups(b, p, <<>>) IN
   IF ~g.ok THEN F
-  ELSE LET op == SmallSigned(g.gs) IN
+  ELSE LET raw == SmallSigned(g.gs)
+           \* interpretation ledger: the six constructor opcodes are the single bytes 0x6e..0x69 the
+           \* spec lists next to each T(...) equation; a padded encoding of -18..-23 is not a constructor
+           op == IF raw \in -23..-18 /\ Len(g.gs) # 1 THEN 0 ELSE raw IN
     CASE op = -18 \/ op = -19 ->
            LET r == RdIdx(b, g.pos, n) IN
            IF r.ok THEN [ok |-> TRUE, pos |-> r.pos, v |-> [k |-> IF op = -18 THEN "opt" ELSE "vec", a |-> r.v]] ELSE F
@@ -129,7 +132,7 @@ RdHeader(b) ==
                IF a.ok THEN [ok |-> TRUE, pos |-> a.pos, env |-> ReplaceEmpty(tenv) @@ PrimEnv, rawenv |-> tenv @@ PrimEnv, args |-> a.v] ELSE F
 
 \* ------------------------------------------------------------------ binary format: values (M^-1)
-Fuel == 20000      \* elements of zero-sized type we are willing to materialise
+Fuel == 1000       \* values the specification is willing to materialise per message (beyond: "bomb", not judged)
 MaxDepth == 150
 BOMB == [ok |-> FALSE, bomb |-> TRUE]
 IsBomb(r) == "bomb" \in DOMAIN r
